@@ -63,6 +63,27 @@ def run(ctx):
             if got != want:
                 ctx.violate("vnc-response", {"input": {"password": pw, "challenge": hx(ch)}, "impl": got, "spec": want,
                                              "how": "RFBClient.sendPassword vs DES-ECB(challenge) under the RFC 6143 7.2.2 key (reference computed with Cryptodome in the harness)"})
+    # the same through each client class: a server that asks for VNC authentication gets that response on the wire,
+    # for every password the user gave - the empty one included (key of eight NULs)
+    import rfbgen
+    for pw, ch in cases[:13] + cases[13:13 + ctx.n(30, 300)]:
+        if not pw.isascii():
+            continue
+        for kind, ver in (("lib", b"RFB 003.008\n"), ("cli", b"RFB 003.007\n"), ("base", b"RFB 003.008\n"), ("lib", b"RFB 003.003\n")):
+            cl, tr, _ = rfbgen.new_client(kind, password=pw)
+            if ver == b"RFB 003.003\n":
+                parts = [ver, struct.pack("!I", 2) + ch]
+            else:
+                parts = [ver, bytes([1, 2]), ch]
+            rfbgen.feed_impl(cl, tr, parts)
+            ws = [t[2:] for t in rfbgen.toks(tr) if t.startswith("w:")]
+            want = hx(ref_des_response(pw, ch))
+            ctx.count("vnc_auth_conversation_" + kind)
+            ctx.case(None, key=("conv", kind, pw, ch))
+            if not ws or ws[-1] != want:
+                ctx.violate("vnc-response-on-the-wire", {"input": {"client": kind, "banner": ver.decode(), "password": pw, "challenge": hx(ch)},
+                                                         "impl": "writes after the challenge: %r; trace %r" % (ws[1:], rfbgen.toks(tr)[-4:]), "spec": want,
+                                                         "how": "whole handshake on an in-memory transport: the bytes the client writes in answer to the challenge"})
     # spec (Lean DES) vs Cryptodome, on the same cases
     for pw, ch in cases[:ctx.n(150, 1500)]:
         lines.append("crypto specresp %s %s" % (pw.encode("ascii")[:8].hex() or "-", hx(ch)))
